@@ -80,6 +80,13 @@ def pkOfString : String → PK
   | "between" => .between | "in" => .inList | "coalesce" => .coalesce | "case" => .case | "if" => .iff
   | "add" => .add | "sub" => .sub | "mul" => .mul | "neg" => .neg | _ => .other
 
+def pkindOfString : String → Except String PKind
+  | "none" => pure .none | "func" => pure .func | "paren" => pure .paren | "or" => pure .or | "and" => pure .and
+  | "not" => pure .not | "eq" => pure .eq | "rel" => pure .rel | "is" => pure .is | "between" => pure .between
+  | "inList" => pure .inList | "add" => pure .add | "sub" => pure .sub | "mul" => pure .mul | "neg" => pure .neg
+  | "atom" => pure .atom
+  | s => throw ("pkind " ++ s)
+
 def ruleOfString : String → Except String Rule
   | "uniq_sort" => pure .uniqSort | "absorb_and_eliminate" => pure .absorbAndEliminate
   | "remove_complements" => pure .removeComplements | "flatten" => pure .flatten
@@ -136,6 +143,8 @@ def handle (line : String) : Except String Json := do
   | "simplify_coalesce" => pure (eJ (simplifyCoalesce ⟨false, ← getB "cns"⟩ (← getE "e")))
   | "simplify_parens" => pure (eJ (simplifyParens (pkOfString (← getS "p")) (← getE "e")))
   | "flatten" => pure (eJ (flatten1 (← getE "e")))
+  | "reparse_safe" =>
+    pure (Json.bool (reparseSafe (← pkindOfString (← getS "p")) (← (← j.getObjVal? "pos").getNat?) (← pkindOfString (← getS "c"))))
   | "propagate_constants" =>
     match propagateConstants (← getB "gate") (← getE "e") with
     | some r => pure (Json.arr #["res", eJ r])
